@@ -135,6 +135,7 @@ func getScanBuffer(size int) []byte {
 }
 
 func putScanBuffer(buf []byte) {
+	verifEventS("sb.put", int64(cap(buf)), 0, unsafeString(buf[:cap(buf)]))
 	c := cap(buf)
 	// Reject capacities outside the pooled range outright, so the documented
 	// per-buffer pin bound (1<<scanBufferMaxShift) holds.
